@@ -172,7 +172,7 @@ func H_C07_WrkRecord() {
 	rt.Assert("C09.record-unknown-id-rejected", rt.Implies(rt.And(!onMain, !onForeign), err != nil))
 	if err != nil {
 		rt.Reach("record-rejected")
-		rt.Assert("C07.rejected-changes-nothing", we.MS.SameAs(snap))
+		rt.Assert("C07+C09+C13+C14.rejected-changes-nothing", we.MS.SameAs(snap))
 		return
 	}
 	if !onMain {
@@ -191,7 +191,7 @@ func H_C07_WrkRecord() {
 		} else {
 			rt.Assert("C07.old-record-kept", found)
 		}
-		rt.Assert("C07.old-record-unchanged", rt.Implies(found, blk == pre.B[i]))
+		rt.Assert("C07+C18.old-record-unchanged", rt.Implies(found, blk == pre.B[i]))
 	}
 	if pruned {
 		rt.Reach("record-pruned")
@@ -201,7 +201,7 @@ func H_C07_WrkRecord() {
 	nb, found := we.K.GetWrkChainBlock(we.Ctx, pre.ID, msg.Height)
 	want := wrktypes.WrkChainBlock{Height: msg.Height, Blockhash: msg.BlockHash, Parenthash: msg.ParentHash,
 		Hash1: msg.Hash1, Hash2: msg.Hash2, Hash3: msg.Hash3, SubTime: uint64(now.Unix())}
-	rt.Assert("C07.new-record-exact", rt.And(found, nb == want))
+	rt.Assert("C07+C09.new-record-exact", rt.And(found, nb == want))
 	// counters match what is stored (C08)
 	wc, _ := we.K.GetWrkChain(we.Ctx, pre.ID)
 	all := we.K.GetAllWrkChainBlockHashes(we.Ctx, pre.ID)
@@ -221,7 +221,7 @@ func H_C07_WrkRecord() {
 	rt.Assert("C08.limit-unchanged-by-record", rt.And(fl, l.InStateLimit == pre.L))
 	hi, _ := we.K.GetHighestWrkChainID(we.Ctx)
 	rt.Assert("C09.highest-unchanged", hi == pre.Highest)
-	rt.Assert("C07.foreign-untouched", wrkForeignUntouched(we, pre))
+	rt.Assert("C07+C09+C18.foreign-untouched", wrkForeignUntouched(we, pre))
 	rt.Assert("C16.params-untouched", we.K.GetParams(we.Ctx) == we.Params)
 }
 
@@ -249,7 +249,7 @@ func H_C08_WrkPurchase() {
 	rt.Assert("C13.purchase-only-owner", rt.Implies(err == nil, rt.Or(rt.And(onMain, signer == 0), rt.And(onForeign, signer == 1))))
 	if err != nil {
 		rt.Reach("purchase-rejected")
-		rt.Assert("C08.rejected-changes-nothing", we.MS.SameAs(snap))
+		rt.Assert("C08+C09+C13+C14.rejected-changes-nothing", we.MS.SameAs(snap))
 		return
 	}
 	if !onMain {
@@ -266,10 +266,10 @@ func H_C08_WrkPurchase() {
 	rt.Assert("C08.response", rt.And(res.WrkchainId == pre.ID, res.NumberPurchased == msg.Number))
 	wc, _ := we.K.GetWrkChain(we.Ctx, pre.ID)
 	rt.Assert("C09.purchase-leaves-chain", wc == pre.WC)
-	rt.Assert("C07.foreign-untouched", wrkForeignUntouched(we, pre))
+	rt.Assert("C07+C09+C18.foreign-untouched", wrkForeignUntouched(we, pre))
 	for i := 0; i < pre.N; i++ {
 		blk, found := we.K.GetWrkChainBlock(we.Ctx, pre.ID, pre.H[i])
-		rt.Assert("C07.old-record-unchanged", rt.And(found, blk == pre.B[i]))
+		rt.Assert("C07+C18.old-record-unchanged", rt.And(found, blk == pre.B[i]))
 	}
 }
 
@@ -312,10 +312,10 @@ func H_C09_WrkRegister() {
 	rt.Assert("C09.existing-untouched", old == pre.WC)
 	ol, _ := we.K.GetWrkChainStorageLimit(we.Ctx, pre.ID)
 	rt.Assert("C08.existing-limit-untouched", ol.InStateLimit == pre.L)
-	rt.Assert("C07.foreign-untouched", wrkForeignUntouched(we, pre))
+	rt.Assert("C07+C09+C18.foreign-untouched", wrkForeignUntouched(we, pre))
 	for i := 0; i < pre.N; i++ {
 		blk, f := we.K.GetWrkChainBlock(we.Ctx, pre.ID, pre.H[i])
-		rt.Assert("C07.old-record-unchanged", rt.And(f, blk == pre.B[i]))
+		rt.Assert("C07+C18.old-record-unchanged", rt.And(f, blk == pre.B[i]))
 	}
 }
 
